@@ -14,6 +14,7 @@ def run(tier):
     f.out.stage('A model check (product of long-lived and persisted copy)'); vise_eq(f, 6 if t else 4)
     f.out.stage('B+C model histories in persisted mode (snapshot round trip)'); f.replay_model(5 if t else 4)
     f.out.stage('B+C model histories served in both modes (paired)'); f.pairs_model(5 if t else 4, ['pages', 'nav', 'capacity', 'lang', 'flags', 'rempty', 'inline', 'msink'] if t else ['pages', 'lang', 'rempty', 'msink'])
+    f.out.stage('C engine.Loop on programs that end gracefully, silently and by termination (Loop.tla)'); f.loop_fixed(['ends', 'flags'], 5 if t else 4)
     f.out.stage('C paired runs long-lived vs persisted over mem / fs / pg-fake; two sessions alternating through one reused Persister'); f.pairs_stage(150 if t else 25, 12, 10)
     return f.finish('Every generated history served twice (one long-lived engine; fresh engine + Persister per request) on each store, transcripts compared; '
                     'stored snapshot re-read into fresh objects and compared with the live session after every persisted request;')
